@@ -268,7 +268,7 @@ fn pipe_case(rt: &tokio::runtime::Runtime, dir: &Path, case: &Value, n: usize) -
 		}
 	}
 	ev["streams"] = json!(streams);
-	ev["expect"] = json!(looked.iter().filter(|(_, r)| **r != RES_NONE).map(|((z, y, x), r)| json!([z, x, y, r])).collect::<Vec<_>>());
+	ev["expect"] = json!(looked.iter().filter(|(_, r)| **r > 0 || **r == RES_UNKNOWN).map(|((z, y, x), r)| json!([z, x, y, r])).collect::<Vec<_>>());
 	for p in file_paths {
 		remove_path(&p);
 	}
